@@ -11,14 +11,14 @@ accepts, dropped when it is a default node and defaults are ignored; the cache i
 theorem findMatch_plain (S : Schema) (sibs : List DNode) (t : DNode) (d : Bool) (used : List Nat)
     (h : S.isDupInst t.sid = false) :
     findMatch S sibs t d used =
-      ((sibs.findIdx? (matchP S t)).bind (fun i =>
+      ((sibs.findIdx? (matchK S t)).bind (fun i =>
           if (sibs[i]?.map (·.flags.dflt)).getD false && !d then none else some i), used) := by
-  have hf : matchPred S t used = (fun x _ => matchP S t x) := by
+  have hf : matchPred S t used = (fun x _ => matchK S t x) := by
     funext x i
-    simp [matchPred, matchP, instMatch, h]
+    simp [matchPred, matchK, instMatch, h]
   unfold findMatch
   rw [hf, findIdxFrom_zero]
-  cases sibs.findIdx? (matchP S t) with
+  cases sibs.findIdx? (matchK S t) with
   | none => rfl
   | some i =>
     simp only [Option.bind_some, h, Bool.false_eq_true, if_false]
